@@ -392,8 +392,20 @@ def native_C16(tier, seed):
                         cases += 1
                         try:
                             # selections
-                            for kind in range(4):
-                                if kind == 0:
+                            for kind in range(6):
+                                if kind == 4:
+                                    # a boolean mask given as a plain Python list selects like the mask (NumPy / Torch; JAX rejects list indices)
+                                    if nsname == "jax":
+                                        continue
+                                    npidx = rng.random(n) < 0.5
+                                    npidx[0] = True
+                                    idx = npidx.tolist()
+                                elif kind == 5:
+                                    if nsname == "jax":
+                                        continue
+                                    npidx = rng.integers(0, n, size=4)
+                                    idx = npidx.tolist()
+                                elif kind == 0:
                                     idx = slice(1, n - 1)
                                     npidx = idx
                                 elif kind == 1:
